@@ -3,6 +3,7 @@ job construction (E3 cut of tag_multiome_multi_processing), region tiling, Molec
 from vlib import astcut, floatcut
 from spec import tagging as S
 from spec import c05 as S5
+from vlib.sym import pick
 import singlecellmultiomics.universalBamTagger.bamtagmultiome as BT
 import singlecellmultiomics.bamProcessing.bamBinCounts as B
 import singlecellmultiomics.universalBamTagger.tagging as TG
@@ -172,6 +173,44 @@ def _l5_job(n: int, c0: int, c1: int, c2: int, v0: bool, v1: bool, v2: bool, v3:
 
 
 _T = {'quick': 150, 'thorough': 900}
+def _l7_qflag(n: int, m0: int, m1: int, m2: int, q0: bool, q1: bool, q2: bool, u0: bool, u1: bool, u2: bool, r0: bool, r1: bool, r2: bool) -> bool:
+    """
+    pre: 1 <= n <= 3
+    pre: 0 <= m0 <= 2 and 0 <= m1 <= 2 and 0 <= m2 <= 2
+    post: _
+    """
+    # -method qflag: the real ReadIterator hands every record on alone, FragmentStartPosition / Molecule / MoleculeIterator
+    # (every_fragment_as_molecule, rejects kept) must emit every record exactly once with its mate number unchanged.
+    # m: 0 = unpaired, 1 = read 1 of a pair, 2 = read 2 of a pair; q: qc-fail; u: unmapped; r: reverse strand
+    from singlecellmultiomics.molecule.iterator import ReadIterator
+    from singlecellmultiomics.molecule import MoleculeIterator, Molecule
+    from singlecellmultiomics.fragment import FragmentStartPosition
+    from stubs.fakeread import FakeRead
+    recs = []
+    for i, (m, q, u, r) in enumerate(list(zip([m0, m1, m2], [q0, q1, q2], [u0, u1, u2], [r0, r1, r2]))[:n]):
+        mm = pick([0, 1, 2], m)
+        recs.append(FakeRead(query_name='q%d' % i, reference_name='chr1', reference_start=100 + 10 * i, cigartuples=(None if u else [(0, 8)]), seq='ACGTACGT', qual='IIIIIIII',      # an unmapped (placed) record has no CIGAR
+                             is_paired=(mm > 0), is_read1=(mm == 1), is_read2=(mm == 2), is_qcfail=q, is_unmapped=u, is_reverse=r,
+                             tags={'SM': 'lib_1', 'RX': 'ACG'}))
+    before = [(x.is_read1, x.is_read2) for x in recs]
+    ri = ReadIterator.__new__(ReadIterator)          # the real __next__ over a plain record stream (no pysam handle)
+    ri.iterator = iter(recs)
+    ri.performProperPairCheck = False
+    ri.cachedR1s, ri.cachedR2s = {}, {}
+    it = MoleculeIterator(ri, molecule_class=Molecule, fragment_class=FragmentStartPosition, every_fragment_as_molecule=True,
+                          yield_invalid=True, yield_overflow=True, perform_qflag=False)
+    seen = []
+    for mol in it:
+        for frag in mol:
+            for read in frag:
+                if read is not None:
+                    seen.append(read.query_name)
+    if sorted(seen) != sorted(x.query_name for x in recs):
+        return False
+    # mate numbers of paired records are unchanged (an unpaired record has none)
+    return all((x.is_read1, x.is_read2) == b for x, b in zip(recs, before) if x.is_paired)
+
+
 LEMMAS = [
     dict(name='L1_contig_jobs', fn='_l1_contig_jobs', engine='E1', timeout=_T, replay='replay.C05:replay',
          cases={'quick': [dict(id='n%d' % n, pre=['n == %d' % n]) for n in (0, 1, 2, 3, 4)],
@@ -184,6 +223,8 @@ LEMMAS = [
          cases={'quick': [dict(id='n%d_p%d' % (n, p), pre=['n == %d' % n, 'pooling == %d' % p]) for n in (1, 2, 3) for p in (0, 1)],
                 'thorough': [dict(id='n%d_p%d' % (n, p), pre=['n == %d' % n, 'pooling == %d' % p]) for n in (1, 2, 3, 4) for p in (0, 1)]}),
     dict(name='L4_writer_step', fn='_l4_writer', engine='E1', timeout=_T, replay='replay.C05:replay'),
+    dict(name='L7_qflag_every_record', fn='_l7_qflag', engine='E1', timeout=_T, replay='replay.C05:replay',
+         cases={'quick': [dict(id='n%d' % k, pre=['n == %d' % k] + ['m%d == 0' % i for i in range(k, 3)]) for k in (1, 2, 3)]}),
     dict(name='L6_read_groups_declared', fn='_l6_read_groups', engine='E1', timeout=_T, replay='replay.C05:replay'),
     dict(name='L5_job_bookkeeping', fn='_l5_job', engine='E1', timeout=_T, replay='replay.C05:replay'),
 ]
@@ -191,8 +232,9 @@ LEMMAS = [
 PROPERTY = dict(
     functions=['bamtagmultiome.tag_multiome_multi_processing: `if one_contig_per_process:` block and its else branch (AST cut, E3)',
                'bamBinCounts.blacklisted_binning_contigs / blacklisted_binning', 'utils.binning.bp_chunked',
-               'molecule.iterator.MoleculeIterator.__iter__', 'bamtagmultiome.tag_multiome_single_thread (read-group collection)', 'tagging.run_tagging_task', 'tagging.run_tagging_tasks (job bookkeeping: a job that wrote records keeps its output)'],
-    bounds={'quick': dict(contigs='<=4 contigs with arbitrary positive lengths, optional (*,0) idxstats entry at any position; and 0..13 contigs in every small* large* small* pattern',
+               'molecule.iterator.MoleculeIterator.__iter__', 'bamtagmultiome.tag_multiome_single_thread (read-group collection)', 'tagging.run_tagging_task', 'tagging.run_tagging_tasks (job bookkeeping: a job that wrote records keeps its output)',
+               'molecule.iterator.ReadIterator.__next__ + Fragment.__init__ / FragmentStartPosition + MoleculeIterator(every_fragment_as_molecule) (-method qflag)'],
+    bounds={'quick': dict(qflag='1..3 records, each unpaired / read 1 / read 2, qc-fail, unmapped (placed, no CIGAR), strand symbolic', contigs='<=4 contigs with arbitrary positive lengths, optional (*,0) idxstats entry at any position; and 0..13 contigs in every small* large* small* pattern',
                           region_mode='<=2 contigs of length <=4/4, bin<=5, bp_per_job<=7, fragment size unbounded',
                           iterator='<=3 fragments, symbolic validity, 2 keys, cap 0..2 (0 = none), both pooling methods, check_eject_every None/0..3',
                           writer='<=3 molecules, arbitrary sites'),
